@@ -343,9 +343,15 @@ impl<'a> DwarfUnwinder<'a> {
                 break;
             }
 
+            // a return address outside of every known object (the registers of a frame could
+            // not be restored, e.g. below a signal trampoline) ends the backtrace, it does not
+            // invalidate the frames found so far
+            let Ok(global_pc) = return_addr.into_global(self.debugee) else {
+                break;
+            };
             let next_location = Location {
                 pc: return_addr,
-                global_pc: return_addr.into_global(self.debugee)?,
+                global_pc,
                 pid: ucx.location.pid,
             };
 
